@@ -582,11 +582,16 @@ class Dataset(AbstractDataset, dict, OpMixin, GetSetDelAttrMixin):
                 raise TypeError("mapper must be callable")
             iterkeys = [(old, mapper(old)) for old in ds.keys()]
 
+        # all variables are looked up and removed before any is stored under its new name,
+        # so that the renaming is simultaneous (e.g. a swap {'a':'b', 'b':'a'} works)
+        iterkeys = list(iterkeys)
+        vals = [super(Dataset, ds).__getitem__(old) for old, new in iterkeys] # same as ds[old]
         for old, new in iterkeys:
-            val = super(Dataset, ds).__getitem__(old) # same as ds[old]
-            super(Dataset, ds).__setitem__(new, val)
             if old != new:
                 super(Dataset, ds).__delitem__(old)
+        for (old, new), val in zip(iterkeys, vals):
+            if old != new:
+                super(Dataset, ds).__setitem__(new, val)
 
         if not inplace:
             return ds
@@ -606,8 +611,11 @@ class Dataset(AbstractDataset, dict, OpMixin, GetSetDelAttrMixin):
                 raise TypeError("mapper must be callable")
             iterkeys = [(old, mapper(old)) for old in ds.dims]
 
-        for old, new in iterkeys:
-            ds.axes[old].name = new
+        # all names at once (a swap or a chain of names works, duplicate names are refused): via `dims`
+        mapping = dict(iterkeys)
+        for old in mapping:
+            ds.axes[old] # (unknown dimension: error)
+        ds.dims = tuple(mapping.get(d, d) for d in ds.dims)
 
         if not inplace:
             return ds
